@@ -440,8 +440,82 @@ def run(ctx) -> Result:
         run_specs(ctx, res, [((True, False), s) for s in ex] + [((True, True), s) for s in ex], "exhaustive")
         res.notes.append(f"exhaustive: all {len(ex)} trees with <= 4 entries over {{a,b,ab}} (relative, str and bytes)")
     run_rekey(ctx, res, 16 if not ctx.thorough else 120)
+    run_appears(ctx, res, 40 if not ctx.thorough else 400)
     run_bstr(ctx, res, 300 if not ctx.thorough else 3000)
     return res
+
+
+def run_appears(ctx, res: Result, n: int, fixed=None):
+    """The reader's own walk of a directory that APPEARS populated (its content exists before the reader looks at the
+    directory's IN_CREATE): Inotify.read_events() must hand on exactly one created record per descendant - files,
+    directories and symbolic links (to a file, to a directory outside the tree, dangling) alike - parents first, with
+    the right flavour for everything that is not a link.  Real Inotify object on a real tree, read by this thread."""
+    from watchdog.observers.inotify_c import Inotify, InotifyConstants
+    rng = ctx.rng("appears")
+    names = ["a", "b", "ab", "c"]
+    for i in range(n if fixed is None else len(fixed)):
+        base = tempfile.mkdtemp(prefix="wdp", dir="/dev/shm" if os.path.isdir("/dev/shm") else None)
+        ino = None
+        try:
+            root, out = os.path.join(base, "R"), os.path.join(base, "O")
+            os.makedirs(root)
+            os.makedirs(os.path.join(out, "od", "sub"))
+            open(os.path.join(out, "of"), "w").close()
+            spec = rand_spec(rng, names, 2, 3) if fixed is None else fixed[i][0]
+            ino = Inotify(os.fsencode(root), recursive=True)
+            d = os.path.join(root, "new")
+            make_tree(d, spec)
+            dirs = [d] + [p for k, p in independent_listing(d) if k == "D"]
+            links = []
+            if fixed is None:
+                plan = []
+                for k in range(rng.randint(0, 3) if i % 3 else 0):
+                    plan.append([os.path.relpath(os.path.join(rng.choice(dirs), f"l{k}"), d), rng.choice(["od", "of", "nowhere"])])
+            else:
+                plan = fixed[i][1]
+            for rel, tname in plan:
+                os.symlink(os.path.join(out, tname), os.path.join(d, rel))
+                links.append([rel, tname])
+            listing = independent_listing(d)
+            evs = ino.read_events()
+            res.evaluations += 1
+            res.hist("appears_links", len(links))
+            meta = {"part": "appears", "spec": sorted_spec(spec), "links": links}
+            if len(listing) >= 2:
+                res.nontrivial.add(core.digest(meta))
+            bd = os.fsencode(d)
+            created = [(os.fsdecode(e.src_path), bool(e.mask & InotifyConstants.IN_ISDIR)) for e in evs
+                       if e.mask & InotifyConstants.IN_CREATE and e.src_path != bd and e.src_path.startswith(bd + b"/")]
+            want = {p: k for k, p in listing}
+            linkset = {os.path.join(d, rel) for rel, _ in links}
+            bad = None
+            seen = set()
+            for p_, isdir in created:
+                if p_ in seen:
+                    bad = ("descendant reported twice", p_)
+                elif p_ not in want:
+                    bad = ("path is not a real descendant", p_)
+                elif p_ not in linkset and isdir != (want[p_] == "D"):
+                    bad = ("wrong File/Dir flavour", p_)
+                elif os.path.dirname(p_) != d and os.path.dirname(p_) not in seen:
+                    bad = ("child reported before its parent", p_)
+                seen.add(p_)
+                if bad:
+                    break
+            if not bad:
+                missing = sorted(p_ for p_ in want if p_ not in seen)
+                if missing:
+                    bad = ("descendant without created record", missing[0])
+            if bad:
+                res.failures.append(Failure(
+                    what=f"a directory that appears populated (reader's own walk): {bad[0]}", case=meta,
+                    signature={"part": "appears", "law": bad[0], "is_link": bad[1] in linkset},
+                    observed={"offending": os.path.relpath(bad[1], d), "created": [[os.path.relpath(p_, d), k] for p_, k in created]},
+                    expected={"one created record each": sorted(os.path.relpath(p_, d) for p_ in want)}))
+        finally:
+            if ino is not None:
+                ino.close()
+            shutil.rmtree(base, ignore_errors=True)
 
 
 def run_abs_chain(ctx, res: Result, n: int):
@@ -496,6 +570,10 @@ def replay(ctx, obj) -> int:
         def unsort(t):
             return {n: (None if s is None else unsort(s)) for n, s in t}
         run_specs(ctx, res, [((case["relative"], case["bytes"], case.get("spelling", "plain")), unsort(case["tree"]))], "replay")
+    elif case.get("part") == "appears":
+        def unsort(t):
+            return {n: (None if s is None else unsort(s)) for n, s in t}
+        run_appears(ctx, res, 1, fixed=[(unsort(case["spec"]), case["links"])])
     for f in res.failures:
         print("FAIL:", f.what, "observed", f.observed, "expected", f.expected)
     for m in res.mismatches:
